@@ -687,6 +687,61 @@ def gen_model(rng, *, stratum: str):
     return case
 
 
+def language_cases():
+    """exhaustive, seed-independent: every operator, comparison, constant and function of the exporter's language
+    (Model/C08Language.lean: what `C08_export_total` says is exported), every way of spelling the callee — one small
+    model each.  A dropped table entry or a branch that stopped working shows here with the input."""
+    x, k = ["name", "p0"], ["name", "p1"]
+    pos = ["binop", "Add", ["call", ["direct", "abs"], [x]], ["num", "1"]]                    # >= 1
+    unit = ["binop", "Div", ["call", ["direct", "min"], [["call", ["direct", "abs"], [x]], ["num", "1"]]], ["num", "2"]]  # [0, 1/2]
+    exprs = []
+    for op in ("Add", "Sub", "Mult"):
+        exprs.append((f"binop {op}", ["binop", op, x, k], False))
+    exprs.append(("binop Div", ["binop", "Div", x, pos], True))
+    exprs.append(("binop FloorDiv", ["binop", "FloorDiv", x, pos], False))
+    exprs.append(("binop Pow", ["binop", "Pow", x, ["num", "2", "i"]], False))
+    exprs.append(("unary USub", ["unary", "USub", x], False))
+    for op in ("Lt", "LtE", "Gt", "GtE", "Eq", "NotEq"):
+        exprs.append((f"cmp {op}", ["ifexp", ["compare", x, [[op, k]]], x, k], False))
+    exprs.append(("chain", ["ifexp", ["compare", ["num", "0"], [["Lt", x], ["LtE", k]]], x, k], False))
+    exprs.append(("not", ["ifexp", ["unary", "Not", ["compare", x, [["Lt", k]]]], x, k], False))
+    exprs.append(("bool consts", ["ifexp", ["bool", True], x, ["ifexp", ["bool", False], k, x]], False))
+    for mod in ("np", "numpy", "math"):
+        for c in ("pi", "e"):
+            exprs.append((f"attr {mod}.{c}", ["binop", "Mult", x, ["attr", mod, c]], True))
+        exprs.append((f"attr {mod}.inf", ["call", ["direct", "min"], [x, ["attr", mod, "inf"]]], False))
+    direct_ok = {"sqrt", "ceil", "log", "log10", "sin", "cos", "tan", "power", "remainder", "abs", "max", "min"}
+    math_has = {"sqrt", "ceil", "log", "log10", "sin", "cos", "tan", "sinh", "cosh", "tanh"}
+    unary = {"sqrt": pos, "log": pos, "log10": pos, "abs": x, "ceil": x, "sin": x, "cos": x, "tan": unit, "arcsin": unit,
+             "arccos": unit, "arctan": x, "sinh": unit, "cosh": unit, "tanh": x, "arcsinh": x,
+             "arccosh": pos, "arctanh": unit}
+    for f, arg in unary.items():
+        spell = [["lib", "np", f], ["lib", "numpy", f]] if f != "abs" else []
+        if f in direct_ok:
+            spell.append(["direct", f])
+        if f in math_has and f != "ceil":
+            spell.append(["lib", "math", f])
+        for cal in spell:
+            exprs.append((f"call {'.'.join(cal[1:])}", ["call", cal, [arg]], f not in ("abs", "ceil")))
+    for f, args in (("power", [x, ["num", "2", "i"]]), ("remainder", [x, pos])):
+        for cal in (["lib", "np", f], ["lib", "numpy", f], ["direct", f]):
+            exprs.append((f"call {'.'.join(cal[1:])}", ["call", cal, args], False))
+    for f in ("max", "min"):
+        for n in (2, 3):
+            exprs.append((f"call {f}/{n}", ["call", ["direct", f], [x, k, ["num", "1"]][:n]], False))
+    cases = []
+    for i, (what, e, floaty) in enumerate(exprs):
+        used = set(_names(e))
+        if "p1" not in used:
+            e = ["binop", "Add", e, k]
+        f = {"fname": f"lang_{i}", "params": ["p0", "p1"], "args": ["x", "k"], "body": [["ret", e]], "doc": False, "floaty": floaty}
+        model = {"params": [["k", ["val", "2"]]], "vars": [["x", ["val", "3"]]], "derived": [],
+                 "rxns": [{"name": "r", "fn": f, "stoich": [["x", ["num", "-1"]]]}]}
+        cases.append({"kind": "language", "what": what, "model": model, "must_raise": False, "finding": None, "floaty": floaty,
+                      "states": [[["x", v]] for v in ("3", "1/2", "0")]})
+    return cases
+
+
 def f_expr_using_all(rng, g, params):
     e = g.num(1)
     for p in params:
@@ -1116,6 +1171,8 @@ def judge_case(ctx, case, R, M):
         sp = view(lean_numbers(M["spec"]), ident0, kinds, ref=S0, fill_none=True)
         if json.dumps(sp, sort_keys=True) != json.dumps(S0, sort_keys=True):
             ctx.add_drift(small, S0, sp, "Lean spec of the original model (evalPy) differs from the real model")
+    if case["kind"] == "language" and M is not None and not M.get("in_language"):
+        raise RuntimeError(f"harness: language case {case.get('what')} is outside Model/C08Language.lean's language")
     # 0a. C08_fn_export_total: every function of the model lies in the exporter's language (Model/C08Language.lean,
     #     declarative) -> the export must not raise (the options of write aside)
     if M is not None and M.get("in_language") and r_exp == "error" and not case.get("refuse"):
@@ -1380,6 +1437,7 @@ def run(ctx):
     for stratum, count in strata(ctx):
         for _ in range(count):
             cases.append(prepare(gen_model(ctx.rng, stratum=stratum)))
+    cases += [prepare(c) for c in language_cases()]
     batch = 256
     for i in range(0, len(cases), batch):
         chunk = cases[i:i + batch]
